@@ -236,7 +236,7 @@ Definition fext (r : fixed) : fixed := {| f_src := ext later (f_src r); f_remain
 Lemma fixed_read_ext k r d rest : 0 < k -> take_n (f_remaining r) (reach (f_src r)) = Some (d, rest) ->
   fixed_read k (fext r) = rmap fext (fixed_read k r).
 Proof.
-  intros Hk Ht. unfold fixed_read. change (f_remaining (fext r)) with (f_remaining r).
+  intros Hk Ht. rewrite !fixed_read_pos by exact Hk. change (f_remaining (fext r)) with (f_remaining r).
   change (f_src (fext r)) with (ext later (f_src r)).
   destruct (N.eqb_spec (f_remaining r) 0) as [E|E]; [reflexivity|].
   destruct (buf_read (N.min (f_remaining r) k) (f_src r)) as [out s'] eqn:Ebr.
@@ -447,7 +447,7 @@ Proof. apply chunked_loop_R. Qed.
 
 Lemma fixed_read_R k r : R (f_src r) (f_src (rst (fixed_read k r))).
 Proof.
-  unfold fixed_read. destruct (N.eqb (f_remaining r) 0); [apply R_refl|].
+  unfold fixed_read. destruct (N.eqb (f_remaining r) 0 || N.eqb k 0)%bool; [apply R_refl|].
   destruct (buf_read (N.min (f_remaining r) k) (f_src r)) as [out s'] eqn:E.
   pose proof (buf_read_R _ _ _ _ E) as H. destruct out; exact H.
 Qed.
